@@ -5,7 +5,7 @@ namespace Ecal.Pool
 
 theorem length_eq_sum (pcs : List PC) :
     pcs.length = cntOf pcs .head + cntOf pcs .chkT + cntOf pcs .chkF + cntOf pcs .run + cntOf pcs .noTask + cntOf pcs .idleReg
-      + cntOf pcs .hasL + cntOf pcs .readQT + cntOf pcs .readQF + cntOf pcs .willWait + cntOf pcs .waiting
+      + cntOf pcs .hasL + cntOf pcs .readQT + cntOf pcs .readQF + cntOf pcs .readKT + cntOf pcs .willWait + cntOf pcs .waiting
       + cntOf pcs .woken + cntOf pcs .unlocking + cntOf pcs .unreg + cntOf pcs .drained + cntOf pcs .exiting
       + cntOf pcs .gone := by
   induction pcs with
@@ -48,13 +48,52 @@ def isKillExit : Event → Bool
   | _ => false
 
 theorem isKillExit_abs (s : State) (e : Event) : (absEvent s e).isKillExit = isKillExit e := by
-  cases e <;> simp [absEvent, CEvent.isKillExit, isKillExit]
+  cases e with
+  | readQ i =>
+    simp only [absEvent, isKillExit]
+    generalize s.pcs[i]? = o
+    rcases o with _ | p
+    · rfl
+    · cases p <;> first | rfl | (rename_i b; cases b <;> rfl)
+  | readKill i =>
+    simp only [absEvent, isKillExit]
+    generalize s.pcs[i]? = o
+    rcases o with _ | p
+    · rfl
+    · cases p <;> first | rfl | (rename_i b; cases b <;> rfl)
+  | _ => simp [absEvent, CEvent.isKillExit, isKillExit]
 
 theorem internal_abs (s : State) (e : Event) : (absEvent s e).internal = isInternal e := by
-  cases e <;> simp [absEvent, CEvent.internal, isInternal]
+  cases e with
+  | readQ i =>
+    simp only [absEvent, isInternal]
+    generalize s.pcs[i]? = o
+    rcases o with _ | p
+    · rfl
+    · cases p <;> first | rfl | (rename_i b; cases b <;> rfl)
+  | readKill i =>
+    simp only [absEvent, isInternal]
+    generalize s.pcs[i]? = o
+    rcases o with _ | p
+    · rfl
+    · cases p <;> first | rfl | (rename_i b; cases b <;> rfl)
+  | _ => simp [absEvent, CEvent.internal, isInternal]
 
 theorem isPop_abs (s : State) (e : Event) : (absEvent s e).isPop = isPop e := by
-  cases e <;> simp [absEvent, CEvent.isPop, isPop]
+  cases e with
+  | readQ i =>
+    simp only [absEvent, isPop]
+    generalize s.pcs[i]? = o
+    rcases o with _ | p
+    · rfl
+    · cases p <;> first | rfl | (rename_i b; cases b <;> rfl)
+  | readKill i =>
+    simp only [absEvent, isPop]
+    generalize s.pcs[i]? = o
+    rcases o with _ | p
+    · rfl
+    · cases p <;> first | rfl | (rename_i b; cases b <;> rfl)
+  | _ => simp [absEvent, CEvent.isPop, isPop]
 
 theorem mem_internal_worker {s : State} {i : Nat} {e : Event} (hi : i < s.pcs.length)
     (he : e ∈ workerEvents i s) : e ∈ internalEvents s := by
@@ -88,6 +127,7 @@ theorem worker_enabled {s : State} {i : Nat} {p : PC} (h : s.pcs[i]? = some p)
     exact ⟨.wLock i, mem_internal_worker hlt (by simp [workerEvents]), rfl, by simp [step, h, hf]⟩
   | hasL => exact ⟨.readQ i, mem_internal_worker hlt (by simp [workerEvents]), rfl, by simp [step, h]⟩
   | readQ b => exact ⟨.readKill i, mem_internal_worker hlt (by simp [workerEvents]), rfl, by simp [step, h]⟩
+  | readK z => exact ⟨.readQ i, mem_internal_worker hlt (by simp [workerEvents]), rfl, by simp [step, h]⟩
   | willWait => exact ⟨.wWait i, mem_internal_worker hlt (by simp [workerEvents]), rfl, by simp [step, h]⟩
   | waiting => simp [PC.cls] at hb
   | woken =>
@@ -106,11 +146,12 @@ theorem run_enabled {s : State} (hc : 0 < cntOf s.pcs .run) :
     ∃ e ∈ internalEvents s, (step repaired s e).isSome := by
   obtain ⟨i, p, hi, hcls⟩ := exists_of_cntOf_pos hc
   have hlt := lt_of_getElem? hi
-  cases p <;> simp [PC.cls] at hcls
-  · rename_i b; cases b <;> simp at hcls
-  · rename_i t
-    exact ⟨.finish i, mem_internal_worker hlt (by simp [workerEvents]), by simp [step, hi]⟩
-  · rename_i b; cases b <;> simp at hcls
+  cases p with
+  | run t => exact ⟨.finish i, mem_internal_worker hlt (by simp [workerEvents]), by simp [step, hi]⟩
+  | chk b => cases b <;> simp [PC.cls] at hcls
+  | readQ b => cases b <;> simp [PC.cls] at hcls
+  | readK b => cases b <;> simp [PC.cls] at hcls
+  | _ => simp [PC.cls] at hcls
 
 theorem class_enabled {s : State} (c : Cls) (hc : 0 < cntOf s.pcs c)
     (hb : c ≠ .waiting ∧ c ≠ .gone ∧ c ≠ .run) (hl : lockFree s = true ∨ (c ≠ .idleReg ∧ c ≠ .woken)) :
@@ -135,6 +176,7 @@ theorem enabled_or_parked {s : State} (hr : Reachable repaired s) :
   by_cases h5 : 0 < cntOf s.pcs .hasL; · exact Or.inl (class_enabled _ h5 (by decide) (Or.inr (by decide)))
   by_cases h6 : 0 < cntOf s.pcs .readQT; · exact Or.inl (class_enabled _ h6 (by decide) (Or.inr (by decide)))
   by_cases h7 : 0 < cntOf s.pcs .readQF; · exact Or.inl (class_enabled _ h7 (by decide) (Or.inr (by decide)))
+  by_cases h7' : 0 < cntOf s.pcs .readKT; · exact Or.inl (class_enabled _ h7' (by decide) (Or.inr (by decide)))
   by_cases h8 : 0 < cntOf s.pcs .willWait; · exact Or.inl (class_enabled _ h8 (by decide) (Or.inr (by decide)))
   by_cases h9 : 0 < cntOf s.pcs .unlocking; · exact Or.inl (class_enabled _ h9 (by decide) (Or.inr (by decide)))
   by_cases h10 : 0 < cntOf s.pcs .unreg; · exact Or.inl (class_enabled _ h10 (by decide) (Or.inr (by decide)))
